@@ -26,7 +26,7 @@ def build(ctx):
                   'skipped ranges': '<= %d' % NR, 'max_width': '0 .. 2^32 (symbolic)', 'tab_spaces': '1..=8', 'line numbers / widths': '< 2^32',
                   'characters': 'every Unicode scalar value except \\n and \\r (routed / dropped by iterate)',
                   'kinds': 'the six FullCodeCharKind values the character-level classifier constructs'}
-    ctx.outside = ['how skipped_range is filled (visitor.rs push_skipped_with_span, macros.rs)', 'that CharClasses assigns the right kinds (C03)',
+    ctx.outside = ['the callers of push_skipped_with_span (which spans are passed)', 'that CharClasses assigns the right kinds (C03)',
                    'the Display text of the report', 'the file-lines predicate itself (C17): here an uninterpreted predicate sel(line)']
     ctx.assumptions = ['config.file_lines().contains_line(name, n) = uninterpreted predicate sel(n)',
                        'a "comment line" is a line whose terminating newline is classified as comment; a line "contains a string literal" if one of its characters is classified InString',
@@ -237,7 +237,222 @@ def build(ctx):
             after = eng.read_ref(o.state, cell).items[0].items[1].items
             ctx.prop('track_errors/%s/p%d/sets-operational-error' % (kname, i), o.state.pc, z3.Not(after[op_idx]), flags, replay_exit_status)
 
+    skipped_range_recording(ctx)
     validate(ctx, eng, names, fi, ef, rp, kidx, LO, TW, sel)
+
+
+# ----------------------------------------------------------------------------- how skipped_range is filled
+# format_lines scans the *emitted* text, so a recorded range has to be in output line numbers. The source geometry is an
+# uninterpreted function line_of(pos); the output side is the visitor's own counter (line_number = newlines emitted so far).
+
+VIS = 'src/visitor.rs'
+KF_MACRO = 'C07/skipped_range/macro-fallback-records-source-lines'
+
+
+def skipped_range_recording(ctx):
+    eng = ctx.engine(('lib',), loop_bound=6)
+    LIM = z3.BitVecVal(1 << 32, 64)
+    line_of = z3.Function('line_of', z3.BitVecSort(32), z3.BitVecSort(64))
+    posmemo = {}
+
+    def pos_of(v, which):
+        key = (str(getattr(v, 'ident', id(v))), which)
+        if key not in posmemo:
+            posmemo[key] = z3.BitVec('pos.%s.%s' % key, 32)
+        return posmemo[key]
+
+    def span_end(eng_, st, args, ci):
+        return Tup([BV(pos_of(args[0], ci.func.rsplit('::', 1)[1]), 'u32')], 'BytePos')
+
+    def line_of_stub(eng_, st, args, ci):
+        p_ = args[1]
+        if not (isinstance(p_, Tup) and p_.items and isinstance(p_.items[0], BV)):
+            raise Inconclusive('line_of_byte_pos called with a position the harness did not name: %r' % (p_,))
+        return BV(line_of(p_.items[0].e), 'usize')
+
+    def pushed_pairs(st):
+        return [t[2][1] for t in st.trace if t[0] == 'call' and re.search(r'Vec::<\(usize, usize\)>::push$', t[1])]
+
+    # ---- visitor site: FmtVisitor::push_skipped_with_span
+    name = eng.find('push_skipped_with_span', self_ty='FmtVisitor', file=VIS)
+    fn = eng.get_fn(name)
+    fields = [n for n, _ in eng.src.struct_fields('FmtVisitor', VIS)]
+    ln_idx = fields.index('line_number')
+    for k in (1, 2) if ctx.tier == 'quick' else (0, 1, 2, 3):
+        eng.stubs = []
+        eng.lenient = True
+        eng.inline_only = [re.compile(r'push_skipped_with_span')]
+        posmemo.clear()
+        st = State()
+        vis = eng.fresh_of_type(st, fn.params[0][1], 'self')
+        vobj = eng.read_ref(st, vis)
+        if not isinstance(vobj, Opaque):
+            raise Inconclusive('FmtVisitor harness object is not an under-constrained object')
+        L0 = z3.BitVec('L0', 64)           # newlines emitted when the copy of the item begins: it begins on output line L0 + 1
+        item, main = Opaque('Span', 'item'), Opaque('Span', 'main')
+
+        def fmwi(eng_, st_, args, ci):
+            st_.notes[('lazy', vobj.ident, ln_idx)] = BV(L0, 'usize')
+            st_.trace.append(('format_missing_with_indent', args[1]))
+            return UNIT
+
+        def pri(eng_, st_, args, ci):
+            # the snippet of the span is copied verbatim: it adds (last line - first line) newlines
+            cur = st_.notes[('lazy', vobj.ident, ln_idx)]
+            sp = args[1]
+            st_.notes[('lazy', vobj.ident, ln_idx)] = BV(cur.e + (line_of(pos_of(sp, 'hi')) - line_of(pos_of(sp, 'lo'))), 'usize')
+            st_.trace.append(('push_rewrite_inner', sp, args[2]))
+            return UNIT
+        eng.stub(r'Span>::source_callsite$', lambda e, s_, a, c: a[0], 'Span::source_callsite = identity (no macro expansion in the harness)')
+        eng.stub(r'Span>::(lo|hi)$', span_end, 'Span::lo/hi = named symbolic positions')
+        eng.stub(r'line_of_byte_pos$', line_of_stub, 'ParseSess::line_of_byte_pos = uninterpreted function line_of(pos) (the source geometry)')
+        eng.stub(r'format_missing_with_indent$', fmwi, 'format_missing_with_indent: afterwards line_number = L0 (symbolic), the copy starts on output line L0+1')
+        eng.stub(r'push_rewrite_inner$', pri, 'push_rewrite_inner(span, None): verbatim copy, line_number += line_of(span.hi) - line_of(span.lo)')
+        attrs_seq = [Opaque('Attribute', 'attr%d' % i) for i in range(k)]
+        attrs = eng.ref_to(st, Seq(attrs_seq), False, 'attrs')
+        outs = ctx.check_outcomes(eng.run(name, [vis, attrs, item, main], st), 'push_skipped_with_span')
+        # the attribute spans the closure read: lazily materialised field objects, found through the memo
+        i_lo, i_hi, m_lo = (line_of(pos_of(item, 'lo')), line_of(pos_of(item, 'hi')), line_of(pos_of(main, 'lo')))
+        n_ilo, n_ihi, n_mlo = z3.BitVecs('src_line_item_lo src_line_item_hi src_line_main_lo', 64)     # names for the model
+        for pi, o in enumerate(outs):
+            a_hi = [line_of(v) for (key, v) in posmemo.items() if key[1] == 'hi' and key[0] not in ('item', 'main')]
+            geom = [z3.UGE(i_lo, 1), z3.ULE(i_lo, m_lo), z3.ULE(m_lo, i_hi), z3.ULT(i_hi, LIM), z3.ULT(L0, LIM)]
+            geom += [z3.And(z3.ULE(i_lo, a), z3.ULE(a, m_lo)) for a in a_hi]
+            geom += [n_ilo == i_lo, n_ihi == i_hi, n_mlo == m_lo]
+            label = 'skipped-range/visitor/attrs=%d/p%d' % (k, pi)
+            if o.kind != 'ret':
+                # the two `+ 1` overflow asserts are unreachable under the geometry
+                ctx.prop(label + '/no-panic', o.state.pc + geom, z3.BoolVal(True), [], None, twin=False)
+                continue
+            pp = pushed_pairs(o.state)
+            if len(pp) != 1:
+                ctx.prop(label + '/exactly-one-range-recorded', o.state.pc + geom, z3.BoolVal(True), [], replay_skipped_visitor, twin=False)
+                continue
+            lo, hi = pp[0].items[0].e, pp[0].items[1].e
+            # the source lines meant: from the line after the last attribute, or the first line of the code if that comes first, to the item's last line
+            att_end = z3.BitVecVal(1, 64)
+            if a_hi:
+                att_end = a_hi[0]
+                for a in a_hi[1:]:
+                    att_end = z3.If(z3.UGE(a, att_end), a, att_end)
+            lo_src = z3.If(z3.ULT(att_end + 1, m_lo), att_end + 1, m_lo)
+            lo_src = z3.If(z3.ULT(lo_src, i_lo), i_lo, lo_src)      # never before the copy itself (no attributes: att_end = 1)
+            mv = [L0, n_ilo, n_ihi, n_mlo]
+            ctx.prop(label + '/start-is-an-output-line', o.state.pc + geom, lo != L0 + 1 + (lo_src - i_lo), mv, replay_skipped_visitor)
+            ctx.prop(label + '/end-is-an-output-line', o.state.pc + geom, hi != L0 + 1 + (i_hi - i_lo), mv, replay_skipped_visitor)
+
+    # ---- rewriter site: macros.rs return_macro_parse_failure_fallback
+    name = eng.find('return_macro_parse_failure_fallback', free=True)
+    fn = eng.get_fn(name)
+    eng.stubs = []
+    eng.lenient = True
+    eng.inline_only = [re.compile(r'return_macro_parse_failure_fallback')]
+    eng.stub(r'Span>::(lo|hi)$', span_end, 'Span::lo/hi = named symbolic positions')
+    eng.stub(r'line_of_byte_pos$', line_of_stub, 'ParseSess::line_of_byte_pos = uninterpreted function line_of(pos) (the source geometry)')
+    st = State()
+    args = [eng.fresh_of_type(st, ty, 'a%d' % i) for i, (_, ty) in enumerate(fn.params)]
+    mspan = Opaque('Span', 'mac')
+    args[3] = mspan
+    D = z3.BitVec('D', 64)      # ghost: output line of the macro's first line minus its source line (lines removed / added above it)
+    outs = ctx.check_outcomes(eng.run(name, args, st), 'return_macro_parse_failure_fallback')
+    m_lo, m_hi = line_of(pos_of(mspan, 'lo')), line_of(pos_of(mspan, 'hi'))
+    geom = [z3.UGE(m_lo, 1), z3.ULE(m_lo, m_hi), z3.ULT(m_hi, LIM), z3.UGE(m_lo + D, 1), z3.ULT(m_hi + D, LIM), z3.Or(z3.ULT(D, LIM), z3.UGT(D, -LIM))]
+    nrec = 0
+    for pi, o in enumerate(outs):
+        if o.kind != 'ret':
+            continue
+        pp = pushed_pairs(o.state)
+        if not pp:
+            continue            # block-like macros are re-indented, not recorded
+        nrec += 1
+        lo, hi = pp[0].items[0].e, pp[0].items[1].e
+        cls = [(KF_MACRO, D != 0)]
+        label = 'skipped-range/macro-fallback/p%d' % pi
+        ctx.prop(label + '/range-is-in-output-lines', o.state.pc + geom, z3.Or(lo != m_lo + D, hi != m_hi + D), [D], replay_skipped_macro, classes=cls)
+    if nrec == 0:
+        ctx.inconclusive.append('skipped-range/macro-fallback: no path records a range')
+    eng.stubs = []
+    eng.lenient = False
+    eng.inline_only = None
+
+
+LONG = 'x' * 120
+
+
+def _run_rustfmt(src, extra=()):
+    bins = ensure_bins()
+    rf = os.path.join(bins, 'rustfmt')
+    d = os.path.join(BUILD, 'scratch', 'c07s-%d' % os.getpid())
+    shutil.rmtree(d, ignore_errors=True)
+    os.makedirs(d)
+    open(os.path.join(d, 'empty.toml'), 'w').write('')
+    p = os.path.join(d, 'in.rs')
+    open(p, 'w').write(src)
+    pr = subprocess.run([rf, '--color', 'never', '--config-path', os.path.join(d, 'empty.toml'), '--emit', 'stdout', '--config',
+                         'error_on_line_overflow=true,error_on_unformatted=true' + ''.join(',' + e for e in extra), p], capture_output=True, text=True, env=run_env(), timeout=60)
+    shutil.rmtree(d, ignore_errors=True)
+    out = pr.stdout.split('\n')[2:] if pr.stdout.startswith(p) else pr.stdout.split('\n')
+    rep = [int(m.group(1)) for m in re.finditer(r'exceeded maximum width[^\n]*\n\s*-->\s*[^\n]*?:(\d+):\d+:\d+', pr.stderr)]
+    return out, sorted(rep), pr.returncode
+
+
+def _preamble(src_lines, out_lines):
+    """source text of `src_lines` lines that rustfmt emits as `out_lines` lines (None if this builder cannot)"""
+    if src_lines >= out_lines:
+        # leading blank lines vanish; one-line items stay one line
+        return '\n' * (src_lines - out_lines) + ''.join('fn p%d() {}\n' % i for i in range(out_lines))
+    surplus = out_lines - src_lines
+    units = []
+    while surplus > 0:
+        if surplus == 1 or surplus == 3:
+            units.append(('fn q%d() {} fn r%d() {}\n', 1))
+            surplus -= 1
+        else:
+            units.append(('fn q%d() { a(); }\n', 2))
+            surplus -= 2
+    if len(units) > src_lines:
+        return None
+    return ''.join(u % ((i,) * u.count('%d')) for i, (u, _) in enumerate(units)) + ''.join('fn p%d() {}\n' % i for i in range(src_lines - len(units)))
+
+
+def replay_skipped_visitor(model, r):
+    """a #[rustfmt::skip] item with a too wide line, placed so that source and output line numbers differ"""
+    findings = []
+    cases = []
+    if model and model.get('src_line_item_lo') is not None and model.get('L0') is not None:
+        # the solver's geometry, scaled into what the input builder can produce
+        s0, o0 = model['src_line_item_lo'] - 1, model['L0']
+        if max(s0, o0) > 30:
+            s0, o0 = (12, 2) if s0 > o0 else ((2, 7) if o0 > s0 else (3, 3))
+        cases.append((s0, o0))
+    cases += [(0, 0), (3, 1), (11, 1), (12, 2), (2, 4), (3, 7)]
+    for (s, o) in cases:
+        pre = _preamble(s, o)
+        if pre is None:
+            continue
+        # (a) the skipped item's too wide line must not be reported; (b) a too wide line right after it must be
+        src = pre + '#[rustfmt::skip]\nfn b() { let v = "%s"; }\nfn c() {\n    let w = "%s";\n}\n' % (LONG, LONG)
+        out, rep, rc = _run_rustfmt(src)
+        wide = [i + 1 for i, ln in enumerate(out) if len(ln) > 100]
+        if len(out) < o + 5 or len(wide) != 2:
+            continue            # the builder did not produce the intended layout: no verdict from this case
+        want = [wide[1]]
+        if rep != want:
+            findings.append('source lines before the skipped item: %d, output lines: %d -> too wide lines reported %r, expected %r (line %d is skipped code)' % (s, o, rep, want, wide[0]))
+    return {'reproduced': bool(findings), 'detail': findings}
+
+
+def replay_skipped_macro(model, r):
+    findings = []
+    for blanks in (0, 10):
+        src = 'fn a() {}\n' + '\n' * (1 + blanks) + 'fn b() {\n    foo!(=> %s ;;; =>);\n}\n' % LONG
+        out, rep, rc = _run_rustfmt(src, extra=('error_on_unformatted=false',))
+        wide = [i + 1 for i, ln in enumerate(out) if len(ln) > 100]
+        if len(wide) != 1:
+            continue
+        if rep:
+            findings.append('%d blank lines removed above an unparsable macro call: its too wide line %d is reported %r although the call is left as it was' % (blanks, wide[0], rep))
+    return {'reproduced': bool(findings), 'detail': findings}
 
 
 # ----------------------------------------------------------------------------- native side
